@@ -145,10 +145,14 @@ def site_arg_texts(text: str, name="snapshot"):
 
 def strip_added_imports(before: str, after: str):
     """remove the exact lines inline-snapshot may add (`from inline_snapshot import external`
-    / `HasRepr`) from `after` when they are not in `before`"""
+    / `HasRepr`) from `after` when they are not in `before` - once, and only if the new code
+    needs that name (it is called somewhere in `after`)"""
+    import re
+
     out = after
     for name in ("external", "HasRepr"):
         line = f"from inline_snapshot import {name}\n"
-        if line not in before and ("\n" + line) in out:
+        used = re.search(r"\b" + name + r"\(", after) is not None
+        if used and line not in before and ("\n" + line) in out:
             out = out.replace("\n" + line, "", 1)
     return out
